@@ -572,7 +572,12 @@ class _Interpolator(object):
         """
         if self.input_type == 'meshgrid':
             # Given a meshgrid, the evaluation will be on a ragged array.
-            x = np.asarray(x, dtype=object)
+            # Fill explicitly, `np.asarray(x, dtype=object)` fails for mesh
+            # shapes like ((1, 1), (1, n))
+            x_arr = np.empty(len(x), dtype=object)
+            for i, xi in enumerate(x):
+                x_arr[i] = xi
+            x = x_arr
         else:
             x = np.asarray(x)
 
